@@ -209,6 +209,14 @@ pub fn admits(ft: &Ft, v: &Fv) -> Class {
                 }
             }
         },
+        // an empty Map type declares nothing and accepts every map (like Array([]))
+        (Ft::Map(ts), Fv::Map(_)) if ts.is_empty() => {
+            if has_nan(v) {
+                Unspec
+            } else {
+                Valid
+            }
+        }
         (Ft::Map(ts), Fv::Map(m)) => {
             if let Some((kind, t)) = is_wildcard(ts) {
                 m.iter().fold(Valid, |c, (k, e)| {
@@ -252,6 +260,7 @@ pub fn declared(ft: &Ft, v: &Fv) -> Fv {
             1 => Fv::Array(a.iter().map(|e| declared(&ts[0], e)).collect()),
             _ => Fv::Array(ts.iter().zip(a).map(|(t, e)| declared(t, e)).collect()),
         },
+        (Ft::Map(ts), Fv::Map(_)) if ts.is_empty() => v.clone(),
         (Ft::Map(ts), Fv::Map(m)) => {
             if let Some((_, t)) = is_wildcard(ts) {
                 Fv::Map(m.iter().map(|(k, e)| (k.clone(), declared(t, e))).collect())
@@ -268,35 +277,47 @@ pub fn declared(ft: &Ft, v: &Fv) -> Fv {
 }
 
 /// "The field equals the written one in the declared variant": strict
-/// (variant + bits) wherever the schema declares a variant; schema-less
-/// canonical equality where it declares none (untyped array elements, the
-/// non-`Json`-variant contents of a Json slot). Under `Option`, a value whose
-/// stored form is CBOR null (Null, Json(null)) equals Null.
-pub fn same_declared(ft: &Ft, want: &Fv, got: &Fv) -> bool {
+/// (variant + bits) wherever the schema declares a variant. Where it declares
+/// none (elements of `Array([])`, values of the open `Map({})`, the
+/// non-`Json`-variant contents of a Json slot):
+///
+/// * `untyped_strict == false` (the caller chose the variants, `set_field`):
+///   equality of the documented schema-less form (I64>=0 = U64, F32 = F64
+///   widening, Vector = array of bit patterns, Json = its shape);
+/// * `untyped_strict == true` (the LIBRARY chose the variants by CBOR shape
+///   when it extracted the value at write time): variant + bits there too —
+///   the shape-driven choice at write time must be the shape-driven choice
+///   the read-back decoder makes for the same stored item.
+///
+/// Under `Option`, a value whose stored form is CBOR null (Null, Json(null))
+/// equals Null.
+pub fn same_field(ft: &Ft, want: &Fv, got: &Fv, untyped_strict: bool) -> bool {
+    let untyped_eq = |a: &Fv, b: &Fv| if untyped_strict { bit_eq(a, b) } else { canon_eq(a, b) };
     match ft {
         Ft::Option(t) => {
             if matches!(canon(want), Fv::Null) {
                 matches!(canon(got), Fv::Null)
             } else {
-                same_declared(t, want, got)
+                same_field(t, want, got, untyped_strict)
             }
         }
         Ft::Json => match want {
             Fv::Json(_) => bit_eq(want, got),
-            _ => canon_eq(want, got),
+            _ => untyped_eq(want, got),
         },
         Ft::Array(ts) => match (want, got) {
             (Fv::Array(a), Fv::Array(b)) => match ts.len() {
-                0 => canon_eq(want, got),
-                1 => a.len() == b.len() && a.iter().zip(b).all(|(x, y)| same_declared(&ts[0], x, y)),
+                0 => untyped_eq(want, got),
+                1 => a.len() == b.len() && a.iter().zip(b).all(|(x, y)| same_field(&ts[0], x, y, untyped_strict)),
                 _ => {
                     a.len() == b.len()
                         && a.len() == ts.len()
-                        && ts.iter().zip(a.iter().zip(b)).all(|(t, (x, y))| same_declared(t, x, y))
+                        && ts.iter().zip(a.iter().zip(b)).all(|(t, (x, y))| same_field(t, x, y, untyped_strict))
                 }
             },
             _ => false,
         },
+        Ft::Map(ts) if ts.is_empty() => matches!((want, got), (Fv::Map(_), Fv::Map(_))) && untyped_eq(want, got),
         Ft::Map(ts) => match (want, got) {
             (Fv::Map(a), Fv::Map(b)) => {
                 let wild = is_wildcard(ts);
@@ -304,14 +325,45 @@ pub fn same_declared(ft: &Ft, want: &Fv, got: &Fv) -> bool {
                     && a.iter().zip(b).all(|((k, x), (l, y))| {
                         k == l
                             && match wild {
-                                Some((_, t)) => same_declared(t, x, y),
-                                None => ts.get(k).is_some_and(|t| same_declared(t, x, y)),
+                                Some((_, t)) => same_field(t, x, y, untyped_strict),
+                                None => ts.get(k).is_some_and(|t| same_field(t, x, y, untyped_strict)),
                             }
                     })
             }
             _ => false,
         },
         _ => bit_eq(want, got),
+    }
+}
+
+pub fn same_declared(ft: &Ft, want: &Fv, got: &Fv) -> bool {
+    same_field(ft, want, got, false)
+}
+
+/// Path (container chain) and variant pair of the first leaf where two
+/// schema-less values differ bit-wise: "arr>map>I64!=U64".
+pub fn first_untyped_diff(a: &Fv, b: &Fv) -> String {
+    match (a, b) {
+        (Fv::Array(x), Fv::Array(y)) if x.len() == y.len() => {
+            for (p, q) in x.iter().zip(y) {
+                if !bit_eq(p, q) {
+                    return format!("arr>{}", first_untyped_diff(p, q));
+                }
+            }
+            "arr:same".into()
+        }
+        (Fv::Map(x), Fv::Map(y)) if x.len() == y.len() => {
+            for ((k, p), (l, q)) in x.iter().zip(y) {
+                if k != l {
+                    return "map:keys-differ".into();
+                }
+                if !bit_eq(p, q) {
+                    return format!("map>{}", first_untyped_diff(p, q));
+                }
+            }
+            "map:same".into()
+        }
+        _ => format!("{}!={}", variant(a), variant(b)),
     }
 }
 
@@ -570,6 +622,9 @@ pub fn extract(ft: &Ft, m: &M) -> Extract {
                 }
             }
         },
+        (Ft::Map(ts), M::Map(entries)) if ts.is_empty() => {
+            Accept(Fv::Map(entries.iter().map(|(k, e)| (k.clone(), generic(e))).collect()))
+        }
         (Ft::Map(ts), M::Map(entries)) => {
             if let Some((kind, t)) = is_wildcard(ts) {
                 if entries.iter().any(|(k, _)| std::mem::discriminant(k) != std::mem::discriminant(kind)) {
